@@ -23,3 +23,6 @@ func VerifDropAll() []bpf.RawInstruction { return dropAllFilter }
 
 func VerifSetPacketIDBase(v uint32) { curPacketID.Store(v) }
 func VerifGetPacketIDBase() uint32  { return curPacketID.Load() }
+
+// VerifAFPacketSourceFromFD wraps an already-open (non-blocking) socket in the real AF_PACKET source implementation.
+func VerifAFPacketSourceFromFD(fd int) Source { return verifSourceFromFD(fd) }
